@@ -177,6 +177,24 @@ def thorough_extras(prop, obs, meta) -> int:
             owner[key] = ob
             calls.append([ob.witness["oracle"], ob.witness.get("args", [])])
     calls = calls[:400]
+    # failing inputs that belong to refuted obligations of this run (listed findings or reported violations): the
+    # witness searches are shared between obligations, so the same input may come back for a discharged one
+    rcalls, seen_r = [], set()
+    for ob in obs:
+        if not isinstance(ob, tuple) and ob.status == REFUTED and ob.witness and ob.witness.get("family") == "call":
+            key = (ob.witness["oracle"], json.dumps(ob.witness.get("args", []), sort_keys=True, default=str))
+            if key not in seen_r:
+                seen_r.add(key)
+                rcalls.append([ob.witness["oracle"], ob.witness.get("args", [])])
+    explained = set()
+    if rcalls and calls:
+        try:
+            pr = subprocess.run([REPLAY_PY, os.path.join(VERIF, "replaylib", "batch.py")], input=json.dumps(rcalls[:200]),
+                                capture_output=True, text=True, timeout=3000,
+                                env=dict(os.environ, PYTHONDONTWRITEBYTECODE="1"))
+            explained = {w for w in json.loads(pr.stdout) if w}
+        except Exception:
+            pass
     found = []
     if calls:
         try:
@@ -189,7 +207,7 @@ def thorough_extras(prop, obs, meta) -> int:
             extra["crosscheck_error"] = repr(e)
         known = load_known()
         for (name, args), w in zip(calls, res):
-            if w:
+            if w and w not in explained:
                 ob = owner[(name, json.dumps(args, sort_keys=True, default=str))]
                 if match_known(ob, known) is not None:
                     continue
